@@ -802,6 +802,21 @@ def inline_with_return(values, log):
     return mean, log
 
 
+def _candidates(variables, *, wanted, skip_prefix):
+    skipped = {name for name in variables if name.startswith(skip_prefix)}
+    for name, attrs in variables.items():
+        if name not in skipped and attrs.get('units') in wanted:
+            yield name
+
+
+def generator_with_prologue(variables):
+    found = _candidates(variables, wanted={'m', 'km'}, skip_prefix='_')
+    try:
+        return next(found)
+    except StopIteration:
+        raise ValueError('none')
+
+
 def _lookup(table, key):
     try:
         return table[key]
@@ -1190,6 +1205,7 @@ CASES = {
     'inline_predicate': [([1, None, 20, 3], {3}), ([], set())],
     'inline_multi': [([1, -2, None, 0],), ([],)],
     'inline_with_return': [([1, 2, 3], []), ([], [])],
+    'generator_with_prologue': [({'_a': {'units': 'm'}, 'b': {'units': 'km'}},), ({'a': {}},), ({},)],
     'inline_tail': [({'a': 1, 2: 'two'}, 'a'), ({'a': 1, 2: 'two'}, '2'), ({}, 'z')],
     'inline_statement': [(2,), (0,)],
     'inline_names_do_not_clash': [([1, 2],), ([],)],
